@@ -3,6 +3,20 @@ import collections
 import vlib
 import gen
 
+MANIFEST = {
+    "text": "Coq theorems over a model of disassemble()/InstructionStream::try_from for ALL non-empty byte strings (any length up "
+            "to 2^32): totality, one entry per byte, byte-exact re-encoding, push immediates never instructions, a PUSH truncated by "
+            "any number of bytes tolerated, unassigned bytes INVALID. The opcode byte table inside the model is regenerated from the "
+            "Rust match arms and impl Opcode blocks on every run (table round trip proved by complete enumeration of the 256 byte "
+            "values); the hand-written state machine is tied to the code by a correspondence run (model vs try_from on the same "
+            "inputs, evaluated in Coq) and the property predicate is also evaluated directly on the implementation's output.",
+    "note": "Trusted: Coq kernel + vm_compute; translator T1/T5 (regex over the match arms, impl Opcode blocks, constructor guards); "
+            "the harness and generators bound how well model = code is known. Byte strings longer than 2^32 are outside the theorem "
+            "(the code rejects them with BytecodeTooLarge).",
+    "technique": "Coq proof (induction over the byte string against a token-level spec) over a translated opcode table + hand model; "
+                 "differential correspondence evaluated inside Coq",
+}
+
 
 def inputs(ctx):
     rng = ctx.rng
